@@ -77,8 +77,10 @@ func H_C16_EncryptDecrypt() {
 			nd.Assert(gerr == nil && bytes.Equal(got, want), "decrypt/returns-identical-leaseset2")
 		}
 	case 1:
+		// a different private key = a different scalar: X25519 clamps bits 0..2 of the first and bits 6..7 of the
+		// last byte, keys that differ only there are the same key
 		other, _ := nd.X25519Key()
-		nd.Assume(!bytes.Equal(other, priv))
+		nd.Assume(!bytes.Equal(clampX25519(other), clampX25519(priv)))
 		back, derr := mk(ct).DecryptInnerData(cookie[:], other)
 		nd.Cover("wrong-key")
 		nd.Assert(derr != nil, "decrypt/other-private-key-fails")
@@ -87,14 +89,21 @@ func H_C16_EncryptDecrypt() {
 		pos := []int{0, 31, 32, 43, 44, 44 + len(want)/2, len(ct) - 17, len(ct) - 16, len(ct) - 1}
 		i := pos[nd.IntRange(0, len(pos)-1)]
 		mod := append([]byte{}, ct...)
-		nb := nd.Byte()
-		nd.Assume(nb != mod[i])
-		mod[i] = nb
+		mask := nd.Byte() // the modification is an XOR mask: the ciphertext itself is random natively
+		nd.Assume(mask != 0)
+		mod[i] ^= mask
 		back, derr := mk(mod).DecryptInnerData(cookie[:], priv)
 		nd.Cover("tampered")
 		nd.Assert(derr != nil, "decrypt/modified-ciphertext-byte-fails")
 		nd.Assert(back == nil, "decrypt/modified-ciphertext-gives-no-value")
 	}
+}
+
+func clampX25519(k []byte) []byte {
+	c := append([]byte{}, k...)
+	c[0] &= 248
+	c[31] = c[31]&127 | 64
+	return c
 }
 
 func destWithSigType(sigT int, pub []byte) (destination.Destination, bool) {
